@@ -121,6 +121,20 @@ def run(tier):
                                      "(a flip next to a concurrent retry tick can remain explainable)" % (
                                          len(bad) - len(ok2), len(bad)))
 
+        # 3b. the same race with the window held open: the queue to the tx processor (1000 entries) is full while two
+        #     peers deliver the same transaction
+        rc, o, err = run_harness(binary, ["txmc", "-seed", str(sd), "-backlog", "8" if quick else "60"], timeout=3000)
+        if rc != 0 or not o.strip():
+            raise Infra("txmc backlog failed: " + err[-2000:])
+        rb = json.loads(o)
+        for m, cnt in rb["problems"].items():
+            f = match_finding("C06", m)
+            if f:
+                res.add_known(f, m)
+                continue
+            res.violation("%s (%d of %d backlog scenarios)" % (m, cnt, rb["scenarios"]), {"engine": "txmc-backlog", "seed": sd})
+        backlog_runs = rb["scenarios"]
+
         # 4. code -> spec at the level of connections: real BitcoinNodes of three verified peers sharing one real
         #    TxManager and NodeManager (inv / tx / request timeout / the manager's RequestTxs), judged by TLC
         tp = os.path.join(scratch, "txnet.ndjson")
@@ -154,7 +168,7 @@ def run(tier):
         res.sample({"connection_level_trace": [[c["op"], c["n"], c["t"], c["req"], c["txs"]] for r in net[0]["rounds"] for c in r["calls"]]})
 
     res.coverage.update({
-        "connection_level": net_stats,
+        "connection_level": net_stats, "backlog_scenarios": backlog_runs,
         "states": states, "transitions": transitions, "traces_validated_against_impl": total_beh + lin_traces,
         "evaluations": total_beh + lin_traces, "distinct_nontrivial": total_beh,
         "rule": "spec->code: every call sequence (Announce/Deliver/Poll/Tick over the nodes and txs) up to the BFS depth, "
